@@ -155,4 +155,17 @@ def u_ccd_separators(E):
     if flt is None:
         return
     m, SEL = flt['m'], flt['SEL']
+    # the selected positions are EXACTLY the digit positions of the text (strictly increasing SEL + this = the digits in order):
+    # generic selected index j, generic text position i
+    j = E.fresh_int('jsel')
+    for f in flt['sel_facts'](j):
+        E.fact(f)
+    cj = s.at(SEL(j))
+    E.prove('ccd[any text]/only-digits-are-selected', z3.Implies(z3.And(j >= 0, j < m), z3.And(cj >= 48, cj <= 57)), 'P')
+    i = E.fresh_int('ipos')
+    for f in flt['rank_facts'](i):
+        E.fact(f)
+    ri = flt['RANK'](i)
+    E.prove('ccd[any text]/every-digit-is-selected',
+            z3.Implies(z3.And(i >= 0, i < s.n, s.at(i) >= 48, s.at(i) <= 57), z3.And(ri >= 0, ri < m, SEL(ri) == i)), 'P')
     expect_char(E, 'ccd[any text]', r, 48 + S.luhn_cd(E, lambda i: s.at(SEL(I(i))) - 48, m))
